@@ -3,15 +3,15 @@
  "property": "C12",
  "standin": "B-gsu",
  "bound": "displays with <= 3 elements x 4 layouts x 4 kinds x delete subsets x 5 insert patterns (1500 sampled cases quick / all thorough) through the real apply_all + new_code",
- "input": "('dict', 'multi', ('1', '\"\"\"a\\nb\"\"\"'), (), {0: ['7'], 2: ['8']})",
- "detail": "result does not parse (invalid syntax): \"x = '\u00e4\u00f6'; v = {'k00': 7, 0: 1,\\n    , 'k20': 8}  # tail\\ny = 2\\n\""
+ "input": "('dict', 'trailing', ('1', '0+2', '\"\"\"a\\nb\"\"\"'), (0, 1), {0: ['7'], 3: ['8']})",
+ "detail": "AssertionError: (Replacement(range=SourceRange(start=SourcePosition(lineno=1, col_offset=4), end=SourcePosition(lineno=2, col_offset=5)), text=\", 'k30': 8\", change_id=17), Replacement(range=SourceRange(start=SourcePosition(lineno=1, col_offset=15), end=SourcePosition(lineno=1, col_offset=29)), text=\"'k00': 7, \", change_id=17))"
 }
 """
 
 import sys, tempfile
 sys.path.insert(0, "/verif")
 from bounded.b_gsu import one_case
-msg = one_case(tempfile.mkdtemp(), *('dict', 'multi', ('1', '"""a\nb"""'), (), {0: ['7'], 2: ['8']}))
-print(('dict', 'multi', ('1', '"""a\nb"""'), (), {0: ['7'], 2: ['8']}), "->", msg)
+msg = one_case(tempfile.mkdtemp(), *('dict', 'trailing', ('1', '0+2', '"""a\nb"""'), (0, 1), {0: ['7'], 3: ['8']}))
+print(('dict', 'trailing', ('1', '0+2', '"""a\nb"""'), (0, 1), {0: ['7'], 3: ['8']}), "->", msg)
 assert msg is None, msg
 
